@@ -5,7 +5,7 @@ import enf_corr as ec
 TRANSLATORS = []
 LEVEL = "proof"
 ASSUMPTIONS = [
-    "failure kinds: the adapter raises after delivering any prefix of k rules; a delivered grouping rule is shorter than the role definition (raises while building role links); failures while ordering rules (priority / subject hierarchy) are not modelled (RBAC and domain models have no priority column)",
+    "failure kinds: the adapter raises after delivering any prefix of k rules; a delivered grouping rule is shorter than the role definition (raises while building role links); failures while ordering rules (a priority that cannot be compared, a cycle in the subject hierarchy) are not in the Lean model: they are judged on the implementation only (state before = state after)",
     "the state before the reload is coherent (C04's invariant): the rollback rebuilds links from the old policy",
     "conditional role managers are outside the model (rollback does not rebuild them: recorded observation F19)",
 ]
@@ -65,6 +65,7 @@ def gen(ctx, deep):
                 {"p": P, "g": [G[0], short, G[1]], "g2": []},
                 {"p": P[:1], "g": [short], "g2": []},
                 {"p": [], "g": G + [short], "g2": []},
+                {"p": P, "g": [], "g2": []},  # every role assignment revoked in the store
             ]
             nfollow = 2 if not deep else 6
             for init in inits:
@@ -79,11 +80,100 @@ def gen(ctx, deep):
     return jobs
 
 
+PRIO_G = """[request_definition]
+r = sub, obj, act
+[policy_definition]
+p = priority, sub, obj, act, eft
+[role_definition]
+g = _, _
+[policy_effect]
+e = priority(p.eft) || deny
+[matchers]
+m = g(r.sub, p.sub) && r.obj == p.obj && r.act == p.act
+"""
+SUBJ_G = PRIO_G.replace("p = priority, sub, obj, act, eft", "p = sub, obj, act, eft").replace("priority(p.eft) || deny", "subjectPriority(p_eft) || deny")
+
+
+def ordering_failure_stream(ctx, res, deep):
+    """failures raised WHILE ORDERING the delivered rules (a priority that cannot be compared with the others; a cycle in the
+    subject hierarchy): judged on the implementation itself — everything observable must be as before the call"""
+    import policy_corr as pc
+
+    casbin = common.use_repo()
+    rng = ctx["rng"]
+    subs = ["alice", "bob", "admin", "root"]
+
+    def observe(e, prio):
+        reqs = [[s, o, "read"] for s in subs for o in ("data1", "data2")]
+        out = {"p": [list(r) for r in e.get_policy()], "g": [list(r) for r in e.get_grouping_policy()], "dec": [], "roles": []}
+        for r in reqs:
+            try:
+                out["dec"].append(bool(e.enforce(*r)))
+            except Exception as ex:  # noqa
+                out["dec"].append("!" + type(ex).__name__)
+        for s in subs:
+            out["roles"].append(sorted(e.get_roles_for_user(s)))
+            out["roles"].append(sorted(e.get_users_for_role(s)))
+        return out
+
+    n = 120 if not deep else 1200
+    for k in range(n):
+        prio = k % 2 == 0
+        text = PRIO_G if prio else SUBJ_G
+
+        def prule(p, s, o, eft):
+            return ([str(p)] if prio else []) + [s, o, "read", eft]
+
+        good_p = [prule(rng.choice([1, 2, 10]), rng.choice(subs), rng.choice(["data1", "data2"]), rng.choice(["allow", "deny"])) for _ in range(rng.randint(1, 4))]
+        good_p = [list(x) for x in {tuple(r) for r in good_p}]
+        good_g = [list(x) for x in {(rng.choice(subs[:2]), rng.choice(subs[2:])) for _ in range(rng.randint(0, 3))}]
+        new_g = [list(x) for x in {(rng.choice(subs[:3]), rng.choice(subs[1:])) for _ in range(rng.randint(1, 3))} if x[0] != x[1]]
+        new_p = [prule(rng.choice([1, 3, 7]), rng.choice(subs), rng.choice(["data1", "data2"]), rng.choice(["allow", "deny"])) for _ in range(rng.randint(1, 4))]
+        if prio:
+            bad = list(rng.choice(new_p))
+            bad[0] = rng.choice(["urgent", "high", "1.5"])
+            new_p.insert(rng.randrange(len(new_p) + 1), bad)
+        else:
+            new_g = [["alice", "bob"], ["bob", "admin"], ["admin", "alice"]][: rng.randint(2, 3)] + [["admin", "alice"]]
+        rules0 = [("p", "p", r) for r in good_p] + [("g", "g", r) for r in good_g]
+        ad = pc.make_adapter(casbin, rules0)
+        try:
+            e = casbin.Enforcer(casbin.Enforcer.new_model(text=text), ad)
+        except Exception:  # noqa  (the initial policy itself may contain a cycle: not this stream's subject)
+            continue
+        before = observe(e, prio)
+        ad.rules = [("p", "p", r) for r in new_p] + [("g", "g", r) for r in new_g]
+        raised = None
+        try:
+            e.load_policy()
+        except Exception as ex:  # noqa
+            raised = f"{type(ex).__name__}: {str(ex)[:60]}"
+        res.evaluations += 1
+        res.count("stream:ordering-failure:" + ("raised" if raised else "loaded"))
+        res.nontrivial.add(hash(("ord", repr(good_p), repr(good_g), repr(new_p), repr(new_g))))
+        if raised:
+            after = observe(e, prio)
+            if after != before:
+                diff = next(kk for kk in before if before[kk] != after[kk])
+                res.violation(
+                    {
+                        "signature": f"C11:ordering-failure:{'priority' if prio else 'subject-hierarchy'}:{diff}",
+                        "what": f"load_policy raised while ordering the delivered rules ({raised}) but {diff} changed from {before[diff]} to {after[diff]}",
+                        "case": {"text": text, "initial": {"p": good_p, "g": good_g}, "delivered": {"p": new_p, "g": new_g}},
+                        "expected": before[diff],
+                        "observed": after[diff],
+                        "model_text": text,
+                        "kind_of_case": "ordering-failure",
+                    }
+                )
+
+
 def run(ctx):
     res = common.Result()
     stages = [False] if not ctx["deep"] else ([True] if ctx["proof_ok"] else [False, True])
     for deep in stages:
         ec.run_configs(res, gen(ctx, deep), judge_factory(), fresh_oracle=True)
+        ordering_failure_stream(ctx, res, deep)
         if res.spec_violations:
             break
     res.rule = (
@@ -97,6 +187,22 @@ def run(ctx):
 
 
 def replay(obj):
+    if obj.get("kind_of_case") == "ordering-failure":
+        import policy_corr as pc
+
+        casbin = common.use_repo()
+        c = obj["case"]
+        ad = pc.make_adapter(casbin, [("p", "p", r) for r in c["initial"]["p"]] + [("g", "g", r) for r in c["initial"]["g"]])
+        e = casbin.Enforcer(casbin.Enforcer.new_model(text=c["text"]), ad)
+        before = ([list(r) for r in e.get_policy()], [list(r) for r in e.get_grouping_policy()], [sorted(e.get_roles_for_user(s)) for s in ("alice", "bob", "admin", "root")])
+        ad.rules = [("p", "p", r) for r in c["delivered"]["p"]] + [("g", "g", r) for r in c["delivered"]["g"]]
+        try:
+            e.load_policy()
+            return False
+        except Exception:  # noqa
+            pass
+        after = ([list(r) for r in e.get_policy()], [list(r) for r in e.get_grouping_policy()], [sorted(e.get_roles_for_user(s)) for s in ("alice", "bob", "admin", "root")])
+        return before != after
     case = obj["case"]
     c = case["config"]
     cfg = ec.Config(c["shape"], adapter=c["adapter"], watcher=c["watcher"], initial=c["initial"], is_async=c.get("async", False))
